@@ -23,8 +23,7 @@ use zvariant::Value;
 
 use crate::{
     fakebus::FakeBus,
-    probe::connect,
-    sched::{quiesce, Slot},
+    sched::{connect, quiesce, Slot},
 };
 
 pub const SVC: &str = ":1.7";
@@ -55,7 +54,7 @@ fn dict(j: &J) -> HashMap<String, Value<'static>> {
 fn answer_gets(bus: &mut FakeBus) -> Vec<String> {
     let mut asked = vec![];
     while let Some(c) = bus.take_call("Get") {
-        let (_i, p): (String, String) = c.msg.body().deserialize().expect("Get args");
+        let (_i, p): (String, String) = c.msg.body().deserialize().expect("HARNESS: Get args");
         if p == "R" {
             bus.release(&FakeBus::error(&c, SVC, "org.freedesktop.DBus.Error.UnknownProperty", "no R"));
         } else {
@@ -88,7 +87,7 @@ pub fn run_case(case: &J) -> J {
     let mut ready_err = String::new();
     quiesce(&mut bus, Some(&conn), &mut [&mut build], true);
     if lazy {
-        proxy = Some(build.out.take().expect("lazy build pending").expect("lazy build failed"));
+        proxy = Some(build.out.take().expect("HARNESS: lazy build pending").expect("HARNESS: lazy build failed"));
     }
     // lazy mode: streams first (this starts the cache task), then a get_property that has to pass ready()
     macro_rules! make_streams {
@@ -97,7 +96,7 @@ pub fn run_case(case: &J) -> J {
             for n in ["P", "Q"] {
                 let mut s = Slot::new(p.receive_property_changed::<u32>(n));
                 quiesce(&mut bus, Some(&conn), &mut [&mut s], true);
-                streams.push((n, s.out.take().expect("receive_property_changed pending")));
+                streams.push((n, s.out.take().expect("HARNESS: receive_property_changed pending")));
             }
             log.push(json!({"k":"streams"}));
         }};
@@ -238,7 +237,7 @@ pub fn run_case(case: &J) -> J {
                     log.push(json!({"k":"skipped-getreply"}));
                 }
             }
-            k => panic!("unknown event kind {k}"),
+            k => panic!("HARNESS: unknown event kind {k}"),
         }
     }
 
